@@ -372,33 +372,30 @@ def reference(world):
             failed[m] = set(['missing', 'failed'])   # a file without any module: the name must still be accounted for
             continue
         kind = world.get('text', {}).get(m, 'healthy')
-        if kind in ('dupsym', 'unktype') or any(c in world.get('symerr', []) for c in mods):
-            # the whole file is abandoned at the first module whose symbol table fails
-            bad_at = 0 if kind in ('dupsym', 'unktype') else min(i for i, c in enumerate(mods) if c in world.get('symerr', []))
-            for c in mods[:bad_at]:
-                parsed[c] = m
-                order.append(c)
-                failed.pop(c, None)   # a name that could not be found as a file turned up as a module of another file
-                if m in requested or c in requested:
-                    requested_canon.add(c)
-            if bad_at and m in mods[:bad_at]:
-                # the module the file is named after is fine: the failure is the later module's, under its own name
-                failed[mods[bad_at]] = set(['failed'])
-            else:
-                failed[m] = set(['failed'])
-            todo.extend(imports.get(m, []) if bad_at else [])
+        if kind in ('dupsym', 'unktype') or (len(mods) == 1 and mods[0] in world.get('symerr', [])):
+            # a file with one module whose symbol table cannot be built: the failure goes under the name asked for
+            failed[m] = set(['failed'])
             continue
+        bad = [c for c in mods if c in world.get('symerr', [])]
+        for c in bad:
+            # one broken module of a file with several: reported under its own name, the others go on
+            # (a sound copy of it known already makes the broken duplicate irrelevant)
+            if c not in parsed:
+                failed[c] = set(['failed'])
+        owner = mods[0]   # the module of the file that carries the import edges of m
+        mods = [c for c in mods if c not in bad]
         for c in mods:
             parsed[c] = m
             order.append(c)
             failed.pop(c, None)   # a name that could not be found as a file turned up as a module of another file
             if m in requested or c in requested:
                 requested_canon.add(c)
-        if m not in mods and m not in requested:
+        if m not in mods and m not in requested and m not in failed:
             # m is known from an IMPORTS clause only, so it names a MODULE; the file that answers to the name holds
             # modules called differently: the module m does not exist
             failed[m] = set(['missing'])
-        todo.extend(imports.get(m, []))
+        if owner in mods:
+            todo.extend(imports.get(m, []))   # imports are followed for modules whose symbol table was built
 
     ref = {'allowed': {}, 'writes': {}, 'payload': {}, 'gen': set(), 'nogen': set()}
     built = []
